@@ -81,9 +81,12 @@ func (*c03Prop) Components() map[string]interface{} {
 
 func (*c03Prop) Plans(tier string) []Plan {
 	if tier == "quick" {
-		return []Plan{{Name: "dag", Workers: 10, Runs: 40000, MaxTime: 45e9, Size: 14}, {Name: "shared-consumers", Variant: 1, Workers: 3, Runs: 40000, MaxTime: 45e9, Size: 14}, {Name: "long-inputs", Variant: 2, Workers: 3, Runs: 450, MaxTime: 45e9, Size: 14}}
+		return []Plan{{Name: "dag", Workers: 10, Runs: 40000, MaxTime: 45e9, Size: 14}, {Name: "shared-consumers", Variant: 1, Workers: 3, Runs: 40000, MaxTime: 45e9, Size: 14}, {Name: "long-inputs", Variant: 2, Workers: 3, Runs: 450, MaxTime: 45e9, Size: 14},
+			// one-case processes: the case's Memoize calls are the FIRST of the process (parser indexes 1, 2, ...)
+			{Name: "dag-cold", Workers: 16000, Runs: 1, MaxTime: 20e9, Size: 12, Cold: true}}
 	}
-	return []Plan{{Name: "dag", Workers: 10, Runs: 4000000, MaxTime: 600e9, Size: 24}, {Name: "long-inputs", Variant: 2, Workers: 6, Runs: 4000000, MaxTime: 600e9, Size: 14}, {Name: "dag-small", Workers: 4, Runs: 4000000, MaxTime: 300e9, Size: 8}, {Name: "shared-consumers", Variant: 1, Workers: 4, Runs: 4000000, MaxTime: 600e9, Size: 20}}
+	return []Plan{{Name: "dag", Workers: 10, Runs: 4000000, MaxTime: 600e9, Size: 24}, {Name: "long-inputs", Variant: 2, Workers: 6, Runs: 4000000, MaxTime: 600e9, Size: 14}, {Name: "dag-small", Workers: 4, Runs: 4000000, MaxTime: 300e9, Size: 8}, {Name: "shared-consumers", Variant: 1, Workers: 4, Runs: 4000000, MaxTime: 600e9, Size: 20},
+		{Name: "dag-cold", Workers: 200000, Runs: 1, MaxTime: 20e9, Size: 12, Cold: true}}
 }
 
 func randPerm(r *Rand, n int) []int {
@@ -317,6 +320,20 @@ func (*c03Prop) Gen(r *Rand, pl *Plan) Case {
 		evs[i], evs[j] = evs[j], evs[i]
 	}
 	c.History = evs
+	if pl.Cold {
+		// the first grammar of a process: no throw-away Memoize calls before it
+		for i := range c.History {
+			c.History[i].Churn = 0
+		}
+		// ... and half of these cases use the rarest whitespace mode (WsNone) for all their trims
+		if r.Bool() {
+			for i := range c.G.Nodes {
+				if op := c.G.Nodes[i].Op; op == "ltrim" || op == "rtrim" {
+					c.G.Nodes[i].Arg = "0"
+				}
+			}
+		}
+	}
 	c.ViaParse = r.Chance(1, 4)
 	if r.Chance(1, 5) {
 		c.PrepareAt = 1 + r.Intn(len(evs))
